@@ -289,7 +289,11 @@ func (p *Packer) packWalkFn(root, src, dst string, tarW *tar.Writer, meta *Meta,
 			// If the target is a directory we can recurse into the target
 			// directory by calling the packWalkFn with updated arguments.
 			if resolved.info.IsDir() {
-				return filepath.Walk(resolved.absTarget, p.packWalkFn(root, resolved.absTarget, path, tarW, meta, ignoreRules))
+				// The target's files are placed where the link is inside the
+				// slug, which differs from path when the link itself was
+				// found inside another dereferenced directory.
+				linkDst := strings.Replace(path, src, dst, 1)
+				return filepath.Walk(resolved.absTarget, p.packWalkFn(root, resolved.absTarget, linkDst, tarW, meta, ignoreRules))
 			}
 
 			// Dereference this symlink by updating the header with the target file
